@@ -129,7 +129,7 @@ func runC05(e *core.Env) {
 		special := ""
 		exists := true
 		// directed scenarios
-		switch i % 12 {
+		switch i % 16 { // 12 directed scenarios, 4 of 16 cases stay with the generated command
 		case 0:
 			if m, ok := gen.Mutate(r, d); ok && ref.Recognise(m.Text).Verdict == ref.NonConforming {
 				text, special = m.Text, "unparseable-target"
@@ -139,7 +139,7 @@ func runC05(e *core.Env) {
 		case 2: // switch whose second step fails
 			cmd = MCmd{Kind: "switch", ResumeNth: r.PickInt(40, -40)}
 			if r.Bool() {
-				cmd = MCmd{Kind: "switch", Summary: []string{"x"}, Resume: true}
+				cmd = MCmd{Kind: r.Pick("switch", "switch", "start"), Summary: []string{"x"}, Resume: true}
 			}
 			c05AimAtOpen(r, &cmd, d.Doc, env)
 		case 3:
@@ -176,6 +176,9 @@ func runC05(e *core.Env) {
 			cmd = MCmd{Kind: "create", ShouldText: r.Pick("99999999999999999999h!", "153722867280912931h!", "9223372036854775807m!", "-99999999999999999999m!", "1h60m!", "8h", "0m!", "!", "153722867280912930h7m!")}
 			c05AimDate(r, &cmd, d.Doc)
 			special = "edge-should-total"
+		case 11: // while `klog pause` is ticking, somebody else leaves the file unparseable: pause must not end with a success
+			cmd = MCmd{Kind: "pause", Ticks: []int{0, 61, 125, 190}, Sabotage: r.PickInt(2, 3)}
+			special = "file-broken-by-someone-else-during-pause"
 		case 10: // the one file-writing command outside the reconciler: it must not harm a file that is already there
 			cmd = MCmd{Kind: "bookmarks"}
 			special = "bookmark-create"
@@ -196,7 +199,7 @@ func runC05(e *core.Env) {
 		}
 		cell := c05Cell(cmd, out, special)
 		e.Begin(i, []byte(fmt.Sprintf("cell=%s clock=%s cmd=%s\n%s", cell, env.Clock().Format("2006-01-02T15:04:05"), cmd.String(), text)))
-		c05Check(e, r, i, file, text, exists, cmd, env, cell, i%straceEvery == 0)
+		c05Check(e, r, i, file, text, exists, cmd, env, cell, int64(core.Hash64("c05-strace", fmt.Sprint(i))%uint64(straceEvery)) == 0)
 		e.End(i)
 	}
 }
@@ -246,7 +249,7 @@ func statID(p string) fileID {
 func c05Check(e *core.Env, r *core.Rand, idx int64, file, text string, exists bool, cmd MCmd, env MEnv, cell string, withStrace bool) {
 	w := map[string]any{"file_before": text, "file_existed": exists, "command": cmd.String(), "clock": env.Clock().Format("2006-01-02T15:04:05"), "config": env.ConfigFile(), "cell": cell}
 	before := statID(file)
-	viaCLI := idx%3 == 0 || cmd.ShouldText != "" || cmd.Kind == "bookmarks"
+	viaCLI := core.Hash64("c05-cli", fmt.Sprint(idx))%3 == 0 || cmd.ShouldText != "" || cmd.Kind == "bookmarks"
 	var lockHolder *os.File
 	if idx%7 == 3 && exists {
 		// somebody else (a backup tool, an editor, a second klog) holds an advisory lock on the target while the command runs
@@ -298,6 +301,12 @@ func c05Check(e *core.Env, r *core.Rand, idx int64, file, text string, exists bo
 			e.Violation("failure-with-exit-status-0", "the command printed an error but returned exit status 0", w)
 			return
 		}
+		if cmd.Sabotage > 0 {
+			// (the bytes on disk are the other party's now; what matters is that pause did not claim success)
+			e.Count("failures", 1)
+			e.Count("cell_"+cell, 1)
+			return
+		}
 		if before.exists != after.exists || afterText != text && before.exists {
 			e.Violation("failed-command-changes-file", fmt.Sprintf("`klog %s` failed (%s) but the file's bytes changed", cmd.String(), trunc(res.ErrText, 120)), w)
 			return
@@ -308,8 +317,13 @@ func c05Check(e *core.Env, r *core.Rand, idx int64, file, text string, exists bo
 		}
 		e.Count("failures", 1)
 	}
-	if idx%40 == 9 && e.KlogBin != "" && exists && cmd.Kind != "bookmarks" && !(cmd.Kind == "pause" && len(cmd.Ticks) > 1) {
+	if core.Hash64("c05-devfull", fmt.Sprint(idx))%40 == 0 && e.KlogBin != "" && exists && cmd.Kind != "bookmarks" && !(cmd.Kind == "pause" && len(cmd.Ticks) > 1) {
 		if !c05DevFull(e, file, text, cmd, env, w) {
+			return
+		}
+	}
+	if (core.Hash64("c05-bm", fmt.Sprint(idx))%40 == 0 || res.OK && core.Hash64("c05-bm2", fmt.Sprint(idx))%5 == 0) && e.KlogBin != "" && exists && cmd.Kind != "bookmarks" && cmd.Sabotage == 0 && !(cmd.Kind == "pause" && len(cmd.Ticks) > 1) {
+		if !c05ViaDefaultBookmark(e, file, text, cmd, env, w) {
 			return
 		}
 	}
@@ -320,7 +334,7 @@ func c05Check(e *core.Env, r *core.Rand, idx int64, file, text string, exists bo
 	if e.WantSample() && !res.OK && strings.HasPrefix(cell, "step2") {
 		e.Sample(w)
 	}
-	if (withStrace || (res.OK && idx%6 == 1)) && e.KlogBin != "" && !(cmd.Kind == "pause" && len(cmd.Ticks) > 1) && cmd.Kind != "bookmarks" {
+	if (withStrace || (res.OK && core.Hash64("c05-strace-ok", fmt.Sprint(idx))%6 == 0)) && e.KlogBin != "" && !(cmd.Kind == "pause" && len(cmd.Ticks) > 1) && cmd.Kind != "bookmarks" {
 		c05Strace(e, file, text, exists, cmd, env, res.OK, w)
 	}
 }
@@ -357,6 +371,52 @@ func c05DevFull(e *core.Env, file, text string, cmd MCmd, env MEnv, w map[string
 	}
 	delete(w, "stdout")
 	e.Count("runs_with_unwritable_stdout", 1)
+	return true
+}
+
+// c05ViaDefaultBookmark runs the real binary without a file argument: the target is the default bookmark, and there is
+// unrelated text on the standard input (`echo y | klog stop`). Mutating commands do not read it; whatever happens, a
+// non-zero status goes with an untouched file.
+func c05ViaDefaultBookmark(e *core.Env, file, text string, cmd MCmd, env MEnv, w map[string]any) bool {
+	cfg := e.Dir + "/bmcfg"
+	if _, err := os.Stat(cfg + "/bookmarks.json"); err != nil {
+		_ = os.MkdirAll(cfg, 0755)
+		if b := obs.RunBin(obs.BinEnv{Bin: e.KlogBin, ConfigDir: cfg}, "bookmarks", "set", "--force", file); b.Err != nil || b.Code != 0 {
+			return true
+		}
+	}
+	_ = os.WriteFile(file, []byte(text), 0644)
+	_ = os.WriteFile(cfg+"/config.ini", []byte(env.ConfigFile()), 0644)
+	clock := env.Clock()
+	args := append(cmd.Args(), "--no-warn")
+	b := obs.RunBin(obs.BinEnv{Bin: e.KlogBin, ConfigDir: cfg, Clock: &clock, NoColor: true, Stdin: []byte("y\nthis is not a klog file\n"), ExtraEnv: []string{"KLOG_VERIF_MAXITER=2"}}, args...)
+	if b.Err != nil {
+		return true
+	}
+	after := readFile(file)
+	w["how"] = "echo 'y…' | klog " + strings.Join(args, " ") + "   (target = default bookmark)"
+	w["bookmark_exit"] = b.Code
+	w["bookmark_file_after"] = after
+	if obs.LooksLikeGoCrash(b.Stdout + b.Stderr) {
+		e.Count("crashes_counted_as_failures", 1)
+	}
+	if b.Code != 0 && after != text {
+		e.Violation("failed-command-changes-file", fmt.Sprintf("real binary, target given by the default bookmark, unrelated text on standard input: `klog %s` exited with %d but the file's bytes changed\n%s", cmd.String(), b.Code, trunc(b.Stdout+b.Stderr, 300)), w)
+		return false
+	}
+	if b.Code == 0 {
+		if _, perr := readBack(after); perr != "" {
+			e.Violation("success-leaves-invalid-file", "real binary, target given by the default bookmark: file does not parse after a successful command: "+perr, w)
+			return false
+		}
+	}
+	delete(w, "how")
+	e.Count("runs_via_default_bookmark_with_unrelated_stdin", 1)
+	if b.Code == 0 {
+		e.Count("runs_via_default_bookmark_succeeding_"+cmd.Kind, 1)
+	} else {
+		e.Count("runs_via_default_bookmark_failing_"+cmd.Kind, 1)
+	}
 	return true
 }
 
